@@ -291,4 +291,153 @@ theorem replay_ok {db : DB} {n : Nat} {ts : List Tr} (hn : (ts.map (·.key)).Nod
   obtain ⟨r, h, hp, ht, hl⟩ := replayFrom_ok (r := { tree := db, pending := [], tracked := [], nextLock := n }) hn hv
   exact ⟨r, h, by simpa using hp, by simpa using ht, hl⟩
 
+/-! ### what an install writes -/
+
+theorem not_mem_keys_of_find_none {db : DB} {k : Nat} (h : find db k = none) : k ∉ db.map (·.key) := by
+  intro hm
+  induction db with
+  | nil => simp at hm
+  | cons a r ih =>
+    by_cases hk : a.key = k
+    · simp [find, hk] at h
+    · simp [find, hk] at h
+      simp at hm
+      rcases hm with hm | hm
+      · exact hk hm.symm
+      · exact ih h (by simpa using hm)
+
+theorem keys_setItem {db : DB} {n : Item} : (setItem db n).map (·.key) = db.map (·.key) := by
+  induction db with
+  | nil => rfl
+  | cons a r ih =>
+    by_cases hk : a.key = n.key
+    · simp [setItem, hk]
+    · simp [setItem, hk, ih]
+
+theorem mem_keys_erase {db : DB} {k x : Nat} (h : x ∈ (erase db k).map (·.key)) : x ∈ db.map (·.key) := by
+  induction db with
+  | nil => simp [erase] at h
+  | cons a r ih =>
+    by_cases hk : a.key = k
+    · simp [erase, hk] at h
+      simp; exact Or.inr (by simpa using h)
+    · simp [erase, hk] at h
+      simp
+      rcases h with h | h
+      · exact Or.inl h
+      · exact Or.inr (by simpa using ih (by simpa using h))
+
+theorem uniqueKeys_erase {db : DB} {k : Nat} (h : UniqueKeys db) : UniqueKeys (erase db k) := by
+  induction db with
+  | nil => simpa [erase] using h
+  | cons a r ih =>
+    unfold UniqueKeys at h ⊢
+    simp at h
+    by_cases hk : a.key = k
+    · simp [erase, hk]; exact h.2
+    · simp [erase, hk]
+      refine ⟨?_, ih h.2⟩
+      intro x hx hax
+      have : x.key ∈ (erase r k).map (·.key) := List.mem_map_of_mem hx
+      have := mem_keys_erase this
+      simp at this
+      obtain ⟨y, hy, hyk⟩ := this
+      exact h.1 y hy (by omega)
+
+theorem uniqueKeys_applyTr {db : DB} {t : Tr} (hu : UniqueKeys db) (hv : valid db t = true) : UniqueKeys (applyTr db t) := by
+  unfold valid at hv
+  unfold applyTr
+  cases hact : t.act <;> simp only [hact] at hv ⊢
+  · exact hu
+  · cases hf : find db t.key with
+    | some it => simp [hf] at hv
+    | none =>
+      unfold UniqueKeys
+      simp
+      refine ⟨?_, hu⟩
+      intro x hx hk
+      exact not_mem_keys_of_find_none hf (by simp; exact ⟨x, hx, hk⟩)
+  · cases hf : find db t.key with
+    | none => exact hu
+    | some it => unfold UniqueKeys; rw [keys_setItem]; exact hu
+  · exact uniqueKeys_erase hu
+
+theorem uniqueKeys_applyAll {ts : List Tr} : ∀ {db : DB}, UniqueKeys db → (ts.map (·.key)).Nodup →
+    (∀ t ∈ ts, valid db t = true) → UniqueKeys (applyAll db ts) := by
+  induction ts with
+  | nil => intro db hu _ _; exact hu
+  | cons t r ih =>
+    intro db hu hn hv
+    simp at hn
+    have hv' : ∀ t' ∈ r, valid (applyTr db t) t' = true := by
+      intro t' ht'
+      have hne : t'.key ≠ t.key := fun he => hn.1 t' ht' he
+      rw [valid_congr (find_applyTr_ne hne)]
+      exact hv t' (by simp [ht'])
+    have := ih (db := applyTr db t) (uniqueKeys_applyTr hu (hv t (by simp))) hn.2 hv'
+    simpa [applyAll] using this
+
+def valAt (db : DB) (k : Nat) : Option Nat := (find db k).map (·.val)
+
+/-- the value a key has after the action, given the value it had -/
+def eff (t : Tr) (old : Option Nat) : Option Nat :=
+  match t.act with
+  | .add => some t.val
+  | .upd => some t.val
+  | .rm => none
+  | .get => old
+
+theorem valAt_applyTr_own {db : DB} {t : Tr} (hu : UniqueKeys db) (hv : valid db t = true) :
+    valAt (applyTr db t) t.key = eff t (valAt db t.key) := by
+  unfold valid at hv
+  unfold applyTr eff valAt
+  cases hact : t.act <;> simp only [hact] at hv ⊢
+  · simp [find]
+  · cases hf : find db t.key with
+    | none => simp [hf] at hv
+    | some it =>
+      have hk := find_key hf
+      have := find_setItem_eq (db := db) (n := { it with val := t.val, ver := t.verInDB + 1 }) (it := it) (by simpa [hk] using hf)
+      simp only [hk] at this
+      simp only [hk]
+      simp [this]
+  · simp [find_erase_eq hu]
+
+theorem find_applyAll_ne' {ts : List Tr} : ∀ {db : DB} {k : Nat}, k ∉ ts.map (·.key) → find (applyAll db ts) k = find db k := by
+  induction ts with
+  | nil => intro db k _; rfl
+  | cons t r ih =>
+    intro db k hk
+    simp at hk
+    simp only [applyAll, List.foldl_cons]
+    have := ih (db := applyTr db t) (k := k) (by simpa using hk.2)
+    simp only [applyAll] at this
+    rw [this, find_applyTr_ne hk.1]
+
+theorem valAt_applyAll_own {ts : List Tr} : ∀ {db : DB}, UniqueKeys db → (ts.map (·.key)).Nodup →
+    (∀ t ∈ ts, valid db t = true) → ∀ t ∈ ts, valAt (applyAll db ts) t.key = eff t (valAt db t.key) := by
+  induction ts with
+  | nil => intro db _ _ _ t ht; cases ht
+  | cons x r ih =>
+    intro db hu hn hv t ht
+    simp at hn
+    have hv' : ∀ t' ∈ r, valid (applyTr db x) t' = true := by
+      intro t' ht'
+      have hne : t'.key ≠ x.key := fun he => hn.1 t' ht' he
+      rw [valid_congr (find_applyTr_ne hne)]
+      exact hv t' (by simp [ht'])
+    rcases List.mem_cons.mp ht with rfl | ht'
+    · have hnot : t.key ∉ r.map (·.key) := by
+        intro hm; simp at hm; obtain ⟨y, hy, hyk⟩ := hm; exact hn.1 y hy hyk
+      have : find (applyAll (applyTr db t) r) t.key = find (applyTr db t) t.key := find_applyAll_ne' hnot
+      simp only [applyAll, List.foldl_cons, valAt] at this ⊢
+      rw [this]
+      exact valAt_applyTr_own hu (hv t (by simp))
+    · have h1 := ih (db := applyTr db x) (uniqueKeys_applyTr hu (hv x (by simp))) hn.2 hv' t ht'
+      have hne : t.key ≠ x.key := fun he => hn.1 t ht' he
+      simp only [applyAll, List.foldl_cons] at h1 ⊢
+      rw [h1]
+      unfold valAt
+      rw [find_applyTr_ne hne]
+
 end Sop.Merge
